@@ -27,6 +27,8 @@ type CheckDef struct {
 	Jobs func(tier string) []Job
 	// Direct runs an in-process exhaustive enumeration instead (E4 checks).
 	Direct func(tier string, deadline time.Time) *DirectResult
+	// Post runs after the searches and contributes coverage entries (e.g. validation of a simulated environment).
+	Post func(tier string) (map[string]any, []string)
 	// BFS lists explicit-state searches over operation sequences (E2).
 	BFS                           func(tier string) []*BFSDef
 	QuickSeconds, ThoroughSeconds int
@@ -196,6 +198,9 @@ func loadKnown() knownFile {
 	}
 	return k
 }
+
+// RunJobs is runJobs for other harness packages.
+func RunJobs(jobs []Job, nworkers int) ([]JobResult, string) { return runJobs(jobs, nworkers) }
 
 func runJobs(jobs []Job, nworkers int) ([]JobResult, string) {
 	if nworkers > len(jobs) {
@@ -445,6 +450,16 @@ func CheckMain(args []string) int {
 		cov["max_preemptions_in_an_execution"] = maxPre
 		cov["distinct_outcomes"] = len(outcomes)
 		cov["scenarios_with_single_outcome"] = single
+	}
+	if def.Post != nil {
+		m, errs := def.Post(tier)
+		engineErrs = append(engineErrs, errs...)
+		for k, v := range m {
+			cov[k] = v
+		}
+		if n, ok := m["scripts_replayed_agreeing_with_recorded_bsd_expectation"].(int); ok {
+			traces += n
+		}
 	}
 	cov["states"], cov["transitions"], cov["traces_validated_against_impl"], cov["samples"] = states, transitions, traces, samples
 	cov["exhaustive"] = exhaustive
